@@ -9,10 +9,19 @@ are dead.
 Script programs: the main context only defines scripts (no xfail), creates routines (run_now = true)
 and lets the loop run.  Every created script has a role:
   producer  yield / send / release            (never blocks)
-  consumer  yield / recv / acquire            (blocks only on what producers supply)
-  locker    critical sections `lock m … unlock m` around producer operations, not nested
+  consumer  yield / recv / acquire / join     (blocks only on what producers supply, or until a routine
+            created EARLIER has returned: the i-th created routine joins only routines with index < i, so the
+            join graph is acyclic; a refused join - second joiner, target already gone - returns `fail` and
+            the script runs on, scripts of the class having no xfail)
+  locker    critical sections `lock m … unlock m` around producer operations, NESTED under a global lock
+            order: inside sections a routine locks only a mutex strictly smaller than the innermost one it
+            holds, and unlocks in LIFO order
 and per channel the receives do not outnumber the sends, per semaphore `k` (initial count `k`) the
 acquires do not outnumber `k` + the releases.
+
+Deadlock freedom of the lockers is the classic lock-order argument (`quiescent_dead`, step `hC`, induction
+on the mutex index); termination of the joiners is induction on the creation index.  Both side conditions
+are needed: `C18_progress_unordered_locks_counterexample`, `C18_progress_join_cycle_counterexample`.
 -/
 import TboxModel.C18.Trace
 namespace Tbox.C18
@@ -24,29 +33,34 @@ def simpleOp : Op → Bool
   | .yield | .send _ _ | .release _ => true
   | _ => false
 
-/-- consumer operation: blocks only on things producers supply; never sends / releases -/
+/-- consumer operation: blocks only on things producers supply, or until another routine has returned;
+never sends / releases -/
 def consOp : Op → Bool
-  | .yield | .recv _ | .acquire _ => true
+  | .yield | .recv _ | .acquire _ | .join _ => true
   | _ => false
 
 /-- the operations in which a routine of the class can be suspended -/
 def blkOp : Op → Bool
-  | .recv _ | .lock _ | .acquire _ => true
+  | .recv _ | .lock _ | .acquire _ | .join _ => true
   | _ => false
 
-/-- a sequence of critical sections; the state is the mutex of the open section -/
-def sections : Option Nat → List Op → Bool
-  | none, [] => true
-  | some _, [] => false
+/-- critical sections `lock m … unlock m` around simple operations, NESTED under a global lock order.
+The state is the stack of the open mutexes, innermost first: inside sections `lock m` is allowed only when
+`m` is strictly smaller than the innermost open mutex (every routine acquires in strictly decreasing index
+order), `unlock m` must name the innermost open mutex (LIFO), simple operations are allowed anywhere, and
+the script ends with the stack empty. -/
+def sections : List Nat → List Op → Bool
+  | st, [] => st.isEmpty
   | st, op :: rest =>
       if simpleOp op then sections st rest
-      else match st, op with
-        | none, .lock m => sections (some m) rest
-        | some m, .unlock m' => decide (m' = m) && sections none rest
+      else match op, st with
+        | .lock m, [] => sections [m] rest
+        | .lock m, m' :: st' => decide (m < m') && sections (m :: m' :: st') rest
+        | .unlock m, m' :: st' => decide (m = m') && sections st' rest
         | _, _ => false
 
 /-- producer, consumer or locker -/
-def roleOK (l : List Op) : Bool := l.all simpleOp || l.all consOp || sections none l
+def roleOK (l : List Op) : Bool := l.all simpleOp || l.all consOp || sections [] l
 
 /-- producers and consumers only -/
 def noLocker (l : List Op) : Bool := l.all simpleOp || l.all consOp
@@ -96,14 +110,29 @@ def balanced (F : List Op) : Bool :=
   (chansOf F).all (fun c => decide (F.countP (isRecv c) ≤ F.countP (isSend c))) &&
   (semsOf F).all (fun k => decide (F.countP (isAcqOp k) ≤ k + F.countP (isRelOp k)))
 
+/-- every `join t` of the script names a routine created before routine `i` -/
+def joinsLt (i : Nat) (l : List Op) : Bool :=
+  l.all fun op => match op with
+    | .join t => decide (t < i)
+    | _ => true
+
+/-- acyclicity of `join`: the `i`-th created routine (creation order = index in `created ops` = routine
+token) joins only routines with a smaller index; the first argument is the index of the head script -/
+def joinsOK : Nat → List (List Op) → Bool
+  | _, [] => true
+  | i, l :: ls => joinsLt i l && joinsOK (i + 1) ls
+
 def Matched (ops : List MainOp) : Bool :=
-  ops.all MainOK && (created ops).all roleOK && balanced (created ops).flatten
+  ops.all MainOK && (created ops).all roleOK && balanced (created ops).flatten && joinsOK 0 (created ops)
 
 /-! ## roles of remaining scripts -/
 
+/-- a stack of open mutexes: strictly increasing from the innermost (head) outwards -/
+def Incr (st : List Nat) : Prop := st.Pairwise (· < ·)
+
 /-- role of a *remaining* script (suffix closed) -/
 def rrole (l : List Op) : Prop :=
-  l.all simpleOp = true ∨ l.all consOp = true ∨ ∃ st, sections st l = true
+  l.all simpleOp = true ∨ l.all consOp = true ∨ ∃ st, Incr st ∧ sections st l = true
 
 theorem roleOK_rrole {l : List Op} (h : roleOK l = true) : rrole l := by
   unfold roleOK at h
@@ -111,66 +140,131 @@ theorem roleOK_rrole {l : List Op} (h : roleOK l = true) : rrole l := by
   rcases h with (h | h) | h
   · exact Or.inl h
   · exact Or.inr (Or.inl h)
-  · exact Or.inr (Or.inr ⟨none, h⟩)
+  · exact Or.inr (Or.inr ⟨[], List.Pairwise.nil, h⟩)
 
-theorem sections_cons {st : Option Nat} {op : Op} {rest : List Op} (h : sections st (op :: rest) = true) :
+/-- the three kinds of step inside sections: a simple operation, `lock m` below the innermost open mutex,
+`unlock` of the innermost open mutex -/
+theorem sections_cons {st : List Nat} {op : Op} {rest : List Op} (h : sections st (op :: rest) = true) :
     (simpleOp op = true ∧ sections st rest = true) ∨
-    (∃ m, st = none ∧ op = .lock m ∧ sections (some m) rest = true) ∨
-    (∃ m, st = some m ∧ op = .unlock m ∧ sections none rest = true) := by
+    (∃ m, op = .lock m ∧ (∀ m' st', st = m' :: st' → m < m') ∧ sections (m :: st) rest = true) ∨
+    (∃ m st', st = m :: st' ∧ op = .unlock m ∧ sections st' rest = true) := by
   unfold sections at h
   by_cases hs : simpleOp op = true
   · simp only [hs, if_true] at h; exact Or.inl ⟨hs, h⟩
   · simp only [hs] at h
     cases st <;> cases op <;> simp_all [simpleOp]
+    rename_i a st' m
+    exact ⟨a, st', ⟨rfl, rfl⟩, rfl, h.2⟩
+
+/-- pushing a mutex below the innermost one keeps the stack increasing -/
+theorem Incr.push {st : List Nat} {m : Nat} (hi : Incr st) (h : ∀ m' st', st = m' :: st' → m < m') :
+    Incr (m :: st) := by
+  unfold Incr at *
+  cases st with
+  | nil => exact List.pairwise_singleton _ _
+  | cons a st' =>
+      have ha := h a st' rfl
+      refine List.pairwise_cons.mpr ⟨fun x hx => ?_, hi⟩
+      rcases List.mem_cons.mp hx with e | e
+      · omega
+      · have := (List.pairwise_cons.mp hi).1 x e; omega
+
+theorem Incr.tail {st : List Nat} {m : Nat} (hi : Incr (m :: st)) : Incr st :=
+  (List.pairwise_cons.mp hi).2
+
+/-- the innermost open mutex is the smallest -/
+theorem Incr.head_le {st : List Nat} {m0 m : Nat} (hi : Incr (m0 :: st)) (hm : m ∈ m0 :: st) : m0 ≤ m := by
+  rcases List.mem_cons.mp hm with e | e
+  · omega
+  · have := (List.pairwise_cons.mp hi).1 m e; omega
 
 theorem rrole_tail {op : Op} {rest : List Op} (h : rrole (op :: rest)) : rrole rest := by
-  rcases h with h | h | ⟨st, h⟩
+  rcases h with h | h | ⟨st, hi, h⟩
   · simp only [List.all_cons, Bool.and_eq_true] at h; exact Or.inl h.2
   · simp only [List.all_cons, Bool.and_eq_true] at h; exact Or.inr (Or.inl h.2)
-  · rcases sections_cons h with ⟨_, h⟩ | ⟨m, _, _, h⟩ | ⟨m, _, _, h⟩
-    · exact Or.inr (Or.inr ⟨_, h⟩)
-    · exact Or.inr (Or.inr ⟨_, h⟩)
-    · exact Or.inr (Or.inr ⟨_, h⟩)
+  · rcases sections_cons h with ⟨_, h'⟩ | ⟨m, _, hl, h'⟩ | ⟨m, st', e, _, h'⟩
+    · exact Or.inr (Or.inr ⟨_, hi, h'⟩)
+    · exact Or.inr (Or.inr ⟨_, hi.push hl, h'⟩)
+    · subst e; exact Or.inr (Or.inr ⟨_, hi.tail, h'⟩)
 
-/-- the seven operations of the class -/
+/-- the eight operations of the class -/
 def okOp : Op → Bool
-  | .yield | .send _ _ | .release _ | .recv _ | .acquire _ | .lock _ | .unlock _ => true
+  | .yield | .send _ _ | .release _ | .recv _ | .acquire _ | .lock _ | .unlock _ | .join _ => true
   | _ => false
 
 theorem rrole_head {op : Op} {rest : List Op} (h : rrole (op :: rest)) : okOp op = true := by
-  rcases h with h | h | ⟨st, h⟩
+  rcases h with h | h | ⟨st, _, h⟩
   · simp only [List.all_cons, Bool.and_eq_true] at h; cases op <;> simp_all [simpleOp, okOp]
   · simp only [List.all_cons, Bool.and_eq_true] at h; cases op <;> simp_all [consOp, okOp]
-  · rcases sections_cons h with ⟨h, _⟩ | ⟨m, _, h, _⟩ | ⟨m, _, h, _⟩
+  · rcases sections_cons h with ⟨h, _⟩ | ⟨m, h, _⟩ | ⟨m, _, _, h, _⟩
     · cases op <;> simp_all [simpleOp, okOp]
     · subst h; rfl
     · subst h; rfl
 
-theorem rrole_lock {m : Nat} {rest : List Op} (h : rrole (.lock m :: rest)) : sections (some m) rest = true := by
-  rcases h with h | h | ⟨st, h⟩
+/-- `lock m` in a script of the class: the rest runs with `m` pushed on an increasing stack -/
+theorem rrole_lock {m : Nat} {rest : List Op} (h : rrole (.lock m :: rest)) :
+    ∃ st, Incr (m :: st) ∧ sections (m :: st) rest = true := by
+  rcases h with h | h | ⟨st, hi, h⟩
   · simp [simpleOp] at h
   · simp [consOp] at h
-  · rcases sections_cons h with ⟨h, _⟩ | ⟨m', _, h, h'⟩ | ⟨m', _, h, _⟩
+  · rcases sections_cons h with ⟨h, _⟩ | ⟨m', h, hl, h'⟩ | ⟨m', _, _, h, _⟩
     · simp [simpleOp] at h
-    · cases h; exact h'
+    · cases h; exact ⟨st, hi.push hl, h'⟩
     · cases h
 
-theorem rrole_unlock {m : Nat} {rest : List Op} (h : rrole (.unlock m :: rest)) : sections none rest = true := by
-  rcases h with h | h | ⟨st, h⟩
+/-- `unlock m` in a script of the class closes the innermost section, which is the one of `m` -/
+theorem rrole_unlock {m : Nat} {rest : List Op} (h : rrole (.unlock m :: rest)) :
+    ∃ st, Incr (m :: st) ∧ sections st rest = true := by
+  rcases h with h | h | ⟨st, hi, h⟩
   · simp [simpleOp] at h
   · simp [consOp] at h
-  · rcases sections_cons h with ⟨h, _⟩ | ⟨m', _, h, _⟩ | ⟨m', _, h, h'⟩
+  · rcases sections_cons h with ⟨h, _⟩ | ⟨m', h, _⟩ | ⟨m', st', e, h, h'⟩
     · simp [simpleOp] at h
     · cases h
-    · exact h'
+    · cases h; subst e; exact ⟨st', hi, h'⟩
 
-/-- inside the section of `m'` the next operation is simple or `unlock m'` -/
-theorem sections_some_cons {m' : Nat} {op : Op} {rest : List Op} (h : sections (some m') (op :: rest) = true) :
-    (simpleOp op = true ∧ sections (some m') rest = true) ∨ op = .unlock m' := by
-  rcases sections_cons h with h | ⟨m, h, _⟩ | ⟨m, h, h', _⟩
-  · exact Or.inl h
-  · cases h
-  · cases h; exact Or.inr h'
+/-- the remaining script `l` is inside the sections of a stack of open mutexes that contains `m` -/
+def Held (m : Nat) (l : List Op) : Prop := ∃ st, m ∈ st ∧ Incr st ∧ sections st l = true
+
+theorem Held.ne_nil {m : Nat} (h : Held m []) : False := by
+  obtain ⟨st, hm, _, h⟩ := h
+  cases st with
+  | nil => cases hm
+  | cons a st' => simp [sections] at h
+
+/-- inside the sections of `m'` the next operation is simple, a `lock` of a smaller mutex, or the `unlock`
+of the innermost open mutex (which is at most `m'`) -/
+theorem sections_some_cons {m' : Nat} {op : Op} {rest : List Op} (h : Held m' (op :: rest)) :
+    (simpleOp op = true ∧ Held m' rest) ∨ (∃ m, op = .lock m ∧ m < m' ∧ Held m' rest) ∨
+    (∃ m, op = .unlock m ∧ m ≤ m' ∧ (m ≠ m' → Held m' rest)) := by
+  obtain ⟨st, hm, hi, h⟩ := h
+  rcases sections_cons h with ⟨h1, h2⟩ | ⟨m, e, hl, h2⟩ | ⟨m, st', e, e', h2⟩
+  · exact Or.inl ⟨h1, st, hm, hi, h2⟩
+  · refine Or.inr (Or.inl ⟨m, e, ?_, m :: st, List.mem_cons_of_mem _ hm, hi.push hl, h2⟩)
+    cases st with
+    | nil => cases hm
+    | cons a st' => have := hl a st' rfl; have := hi.head_le hm; omega
+  · subst e
+    refine Or.inr (Or.inr ⟨m, e', hi.head_le hm, fun hne => ⟨st', ?_, hi.tail, h2⟩⟩)
+    rcases List.mem_cons.mp hm with e | e
+    · exact absurd e.symm hne
+    · exact e
+
+/-- a completed operation other than `unlock m` leaves the routine inside the sections of `m` -/
+theorem Held.step {m : Nat} {op : Op} {rest : List Op} (h : Held m (op :: rest)) (hop : op ≠ .unlock m) :
+    Held m rest := by
+  rcases sections_some_cons h with ⟨_, h⟩ | ⟨_, _, _, h⟩ | ⟨m2, e, _, h⟩
+  · exact h
+  · exact h
+  · exact h (fun e' => hop (e' ▸ e))
+
+/-- a routine inside the sections of `m` blocks only in `lock` of a strictly smaller mutex -/
+theorem Held.blk {m : Nat} {op : Op} {rest : List Op} (h : Held m (op :: rest)) (hb : blkOp op = true) :
+    ∃ m', op = .lock m' ∧ m' < m := by
+  rcases sections_some_cons h with ⟨h, _⟩ | ⟨m', e, hl, _⟩ | ⟨m2, e, _⟩
+  · cases op <;> simp [blkOp, simpleOp] at hb h
+  · exact ⟨m', e, hl⟩
+  · subst e; simp [blkOp] at hb
 
 /-! ## counting -/
 
@@ -251,14 +345,20 @@ structure Wk (s s' : State) : Prop where
   inop : ∀ r, (s'.R r).inOp = (s.R r).inOp
   canc : ∀ r, (s'.R r).canceled = (s.R r).canceled
   st : ∀ r, (s'.R r).state = (s.R r).state ∨ ((s'.R r).state = .ready ∧ (s.R r).state ≠ .dead)
+  raii : ∀ r, (s'.R r).raii = (s.R r).raii
+  rdefs : s'.rdefs = s.rdefs
+  xf : ∀ r, (s'.R r).xfail = (s.R r).xfail
+  frd : ∀ r, (s.R r).freed = true → (s'.R r).freed = true
 
 theorem Wk.refl (s : State) : Wk s s :=
-  ⟨rfl, rfl, rfl, rfl, fun _ => rfl, fun _ => rfl, fun _ => rfl, fun _ => rfl, fun _ => Or.inl rfl⟩
+  ⟨rfl, rfl, rfl, rfl, fun _ => rfl, fun _ => rfl, fun _ => rfl, fun _ => rfl, fun _ => Or.inl rfl, fun _ => rfl, rfl, fun _ => rfl, fun _ h => h⟩
 
 theorem Wk.trans {a b c : State} (h1 : Wk a b) (h2 : Wk b c) : Wk a c := by
   refine ⟨h2.n.trans h1.n, h2.ab.trans h1.ab, h2.log.trans h1.log, h2.defs.trans h1.defs,
     fun m => (h2.hold m).trans (h1.hold m), fun r => (h2.scr r).trans (h1.scr r),
-    fun r => (h2.inop r).trans (h1.inop r), fun r => (h2.canc r).trans (h1.canc r), fun r => ?_⟩
+    fun r => (h2.inop r).trans (h1.inop r), fun r => (h2.canc r).trans (h1.canc r), fun r => ?_,
+    fun r => (h2.raii r).trans (h1.raii r), h2.rdefs.trans h1.rdefs,
+    fun r => (h2.xf r).trans (h1.xf r), fun r h => h2.frd r (h1.frd r h)⟩
   rcases h1.st r with e1 | ⟨e1, d1⟩ <;> rcases h2.st r with e2 | ⟨e2, d2⟩
   · left; rw [e2, e1]
   · right; exact ⟨e2, by rw [← e1]; exact d2⟩
@@ -270,12 +370,15 @@ theorem makeReady_wk (s : State) (r : Nat) : Wk s (makeReady s r).1 := by
   split
   · exact Wk.refl s
   · rename_i h
-    refine ⟨rfl, rfl, rfl, rfl, fun _ => rfl, fun i => ?_, fun i => ?_, fun i => ?_, fun i => ?_⟩
-    all_goals simp only [State.setR, State.R]
+    refine ⟨rfl, rfl, rfl, rfl, fun _ => rfl, fun i => ?_, fun i => ?_, fun i => ?_, fun i => ?_, fun i => ?_, rfl,
+      fun i => ?_, fun i hf => ?_⟩
+    all_goals simp only [State.setR, State.R] at *
     all_goals by_cases hi : i = r
     all_goals simp only [hi, if_true, if_false]
-    · right; subst hi; simp only [State.R] at h; exact ⟨trivial, fun e => h (Or.inr e)⟩
+    · right; subst hi; exact ⟨trivial, fun e => h (Or.inr e)⟩
     · left; trivial
+    · subst hi; exact hf
+    · exact hf
 
 theorem resume_wk (s : State) (r : Nat) : Wk s (resume s r).1 := by
   unfold resume
@@ -293,7 +396,7 @@ theorem wakeAll_wk : ∀ (l : List Nat) (s : State), Wk s (wakeAll s l)
   | t :: ts, s => (resume_wk s t).trans (wakeAll_wk ts _)
 
 theorem tag_wk (s : State) (t : String) : Wk s (tag s t) :=
-  ⟨rfl, rfl, rfl, rfl, fun _ => rfl, fun _ => rfl, fun _ => rfl, fun _ => rfl, fun _ => Or.inl rfl⟩
+  ⟨rfl, rfl, rfl, rfl, fun _ => rfl, fun _ => rfl, fun _ => rfl, fun _ => rfl, fun _ => Or.inl rfl, fun _ => rfl, rfl, fun _ => rfl, fun _ h => h⟩
 
 theorem tagIf_wk (s : State) (b : Bool) (t : String) : Wk s (tagIf s b t) := by
   unfold tagIf
@@ -315,17 +418,29 @@ theorem wake_wk (s : State) (toks : List Nat) (e : Bool) : Wk s (wake s toks e).
     · exact h0
 
 theorem setCh_wk (s : State) (c : Nat) (x : Chan) : Wk s (s.setCh c x) :=
-  ⟨rfl, rfl, rfl, rfl, fun _ => rfl, fun _ => rfl, fun _ => rfl, fun _ => rfl, fun _ => Or.inl rfl⟩
+  ⟨rfl, rfl, rfl, rfl, fun _ => rfl, fun _ => rfl, fun _ => rfl, fun _ => rfl, fun _ => Or.inl rfl, fun _ => rfl, rfl, fun _ => rfl, fun _ h => h⟩
 
 theorem setSm_wk (s : State) (c : Nat) (x : Sem) : Wk s (s.setSm c x) :=
-  ⟨rfl, rfl, rfl, rfl, fun _ => rfl, fun _ => rfl, fun _ => rfl, fun _ => rfl, fun _ => Or.inl rfl⟩
+  ⟨rfl, rfl, rfl, rfl, fun _ => rfl, fun _ => rfl, fun _ => rfl, fun _ => rfl, fun _ => Or.inl rfl, fun _ => rfl, rfl, fun _ => rfl, fun _ h => h⟩
 
 theorem setMx_wk (s : State) (m : Nat) (x : Mutex) (h : x.hold = (s.mx m).hold) : Wk s (s.setMx m x) := by
-  refine ⟨rfl, rfl, rfl, rfl, fun i => ?_, fun _ => rfl, fun _ => rfl, fun _ => rfl, fun _ => Or.inl rfl⟩
+  refine ⟨rfl, rfl, rfl, rfl, fun i => ?_, fun _ => rfl, fun _ => rfl, fun _ => rfl, fun _ => Or.inl rfl, fun _ => rfl, rfl, fun _ => rfl, fun _ h => h⟩
   simp only [State.setMx]
   by_cases hi : i = m
   · simp only [hi, if_true]; exact h
   · simp only [hi, if_false]
+
+/-- `join` registers the caller as the joiner of the target -/
+theorem setJoiner_wk (s : State) (t : Nat) (j : Option Nat) : Wk s (s.setR t { s.R t with joiner := j }) := by
+  refine ⟨rfl, rfl, rfl, rfl, fun _ => rfl, fun i => ?_, fun i => ?_, fun i => ?_, fun i => ?_, fun i => ?_, rfl,
+    fun i => ?_, fun i hf => ?_⟩
+  all_goals simp only [State.setR, State.R] at *
+  all_goals by_cases hi : i = t
+  all_goals simp only [hi, if_true, if_false]
+  · left; trivial
+  · left; trivial
+  · subst hi; exact hf
+  · exact hf
 
 /-! ## the invariant -/
 
@@ -338,8 +453,13 @@ structure Core (s : State) : Prop where
   nab : s.aborted = false
   canc : ∀ r, (s.R r).canceled = false
   role : ∀ r, rrole (s.R r).script
-  hold : ∀ m h, (s.mx m).hold = some h → h < s.n ∧ sections (some m) (s.R h).script = true
+  hold : ∀ m h, (s.mx m).hold = some h → h < s.n ∧ Held m (s.R h).script
   dead : ∀ r, (s.R r).state = .dead → (s.R r).script = []
+  raii : ∀ r, (s.R r).raii = false      -- no `Mutex::Locker` scripts in the class (`MainOK` excludes `defineR`)
+  rdefs : s.rdefs = []
+  xf : ∀ r, (s.R r).xfail = false       -- a refused `join` (result `fail`) does not end the script
+  dxf : ∀ p, p ∈ s.defs → p.1 = false
+  jlt : ∀ r t, Op.join t ∈ (s.R r).script → t < r   -- joins go to routines created earlier
 
 /-- routine `r` is not running, and if it is suspended then inside a blocking operation -/
 def Loc (s : State) (r : Nat) : Prop :=
@@ -351,11 +471,21 @@ structure Mid (s : State) (me : Nat) : Prop where
   loc : ∀ r, r ≠ me → Loc s r
   stme : (s.R me).state = .running ∨ (s.R me).state = .ready
   lt : me < s.n
+  fd : ∀ r, (s.R r).state = .dead → (s.R r).freed = true
 
 /-- in the main context -/
 structure Bd (s : State) : Prop where
   core : Core s
   loc : ∀ r, Loc s r
+  fd : ∀ r, (s.R r).state = .dead → (s.R r).freed = true    -- a routine is freed in the step in which it dies
+
+/-- when `runOps me` is back in `switchTo`: as `Bd`, but `me` may have returned and is not freed yet -/
+structure BdR (s : State) (me : Nat) : Prop where
+  core : Core s
+  loc : ∀ r, Loc s r
+  fd : ∀ r, r ≠ me → (s.R r).state = .dead → (s.R r).freed = true
+
+theorem Bd.toR {s : State} (h : Bd s) (me : Nat) : BdR s me := ⟨h.core, h.loc, fun r _ => h.fd r⟩
 
 /-- frame: number of routines, definitions, conservation of operations -/
 structure Fr (s s' : State) : Prop where
@@ -372,7 +502,9 @@ theorem Wk.fr {s s' : State} (w : Wk s s') : Fr s s' :=
 
 theorem Wk.core {s s' : State} (w : Wk s s') (h : Core s) : Core s' := by
   refine ⟨w.ab.trans h.nab, fun r => (w.canc r).trans (h.canc r), fun r => by rw [w.scr]; exact h.role r,
-    fun m x hx => ?_, fun r hr => ?_⟩
+    fun m x hx => ?_, fun r hr => ?_, fun r => (w.raii r).trans (h.raii r), w.rdefs.trans h.rdefs,
+    fun r => (w.xf r).trans (h.xf r), fun p hp => h.dxf p (by rw [← w.defs]; exact hp),
+    fun r t ht => h.jlt r t (by rw [← w.scr]; exact ht)⟩
   · rw [w.hold] at hx; rw [w.n, w.scr]; exact h.hold m x hx
   · rw [w.scr]
     rcases w.st r with e | ⟨e, _⟩
@@ -386,14 +518,35 @@ theorem Wk.loc {s s' : State} (w : Wk s s') {r : Nat} (h : Loc s r) : Loc s' r :
   · rw [e]; exact h
   · rw [e]; exact ⟨fun x => (by cases x), fun x => (by cases x)⟩
 
+theorem Wk.fd {s s' : State} (w : Wk s s') {r : Nat} (h : (s.R r).state = .dead → (s.R r).freed = true) :
+    (s'.R r).state = .dead → (s'.R r).freed = true := by
+  intro hd
+  rcases w.st r with e | ⟨e, _⟩
+  · exact w.frd r (h (e ▸ hd))
+  · rw [e] at hd; cases hd
+
 theorem Wk.mid {s s' : State} (w : Wk s s') {me : Nat} (h : Mid s me) : Mid s' me := by
-  refine ⟨w.core h.core, fun r hr => w.loc (h.loc r hr), ?_, w.n ▸ h.lt⟩
+  refine ⟨w.core h.core, fun r hr => w.loc (h.loc r hr), ?_, w.n ▸ h.lt, fun r => w.fd (h.fd r)⟩
   rcases w.st me with e | ⟨e, _⟩
   · rw [e]; exact h.stme
   · exact Or.inr e
 
 theorem Wk.bd {s s' : State} (w : Wk s s') (h : Bd s) : Bd s' :=
-  ⟨w.core h.core, fun r => w.loc (h.loc r)⟩
+  ⟨w.core h.core, fun r => w.loc (h.loc r), fun r => w.fd (h.fd r)⟩
+
+/-- `me` returned inside `switchTo`, which then freed it (and woke its joiner) -/
+theorem BdR.bd_of_wk {s s' : State} {me : Nat} (h : BdR s me) (w : Wk s s') (hf : (s'.R me).freed = true) :
+    Bd s' := by
+  refine ⟨w.core h.core, fun r => w.loc (h.loc r), fun r => ?_⟩
+  by_cases e : r = me
+  · subst e; exact fun _ => hf
+  · exact w.fd (h.fd r e)
+
+theorem BdR.bd_of_alive {s : State} {me : Nat} (h : BdR s me) (hd : (s.R me).state ≠ .dead) : Bd s := by
+  refine ⟨h.core, h.loc, fun r hr => ?_⟩
+  by_cases e : r = me
+  · subst e; exact absurd hr hd
+  · exact h.fd r e hr
 
 /-- result of one operation of `me`: it completed and `me` runs on, or `me` switched back -/
 def OpPost (s : State) (me : Nat) (rest : List Op) (p : State × Ctl) : Prop :=
@@ -402,14 +555,15 @@ def OpPost (s : State) (me : Nat) (rest : List Op) (p : State × Ctl) : Prop :=
 theorem OpPost.mono {s0 s : State} {me : Nat} {rest : List Op} {p : State × Ctl} (f : Fr s0 s)
     (h : OpPost s me rest p) : OpPost s0 me rest p := ⟨f.trans h.1, h.2⟩
 
-/-- an operation completes (the mutex table may have changed in between) -/
+/-- an operation completes (the mutex table may have changed in between); scripts of the class are created
+without xfail, so also a failed operation (a refused `join`) lets the script run on -/
 theorem fin_post {s s1 : State} {me : Nat} {op : Op} {rest : List Op} {res : Res}
     (hM : Mid s me) (hs : (s.R me).script = op :: rest)
     (hn : s1.n = s.n) (hd : s1.defs = s.defs) (ha : s1.aborted = s.aborted) (hl : s1.log = s.log)
-    (hr : s1.rts = s.rts)
+    (hr : s1.rts = s.rts) (hrd : s1.rdefs = s.rdefs)
     (hh : ∀ m h, (s1.mx m).hold = some h →
-      h < s.n ∧ sections (some m) (if h = me then rest else (s.R h).script) = true)
-    (hres : res ≠ .fail) : OpPost s me rest (finish s1 me op rest res) := by
+      h < s.n ∧ Held m (if h = me then rest else (s.R h).script)) :
+    OpPost s me rest (finish s1 me op rest res) := by
   have hR : ∀ r, (finish s1 me op rest res).1.R r =
       if r = me then { s.R me with script := rest, inOp := false, done := (s.R me).done + 1 } else s.R r := by
     intro r; simp only [finish, State.setR, State.R, hr]
@@ -418,11 +572,41 @@ theorem fin_post {s s1 : State} {me : Nat} {op : Op} {rest : List Op} {res : Res
   have hne : ∀ r, r ≠ me → (finish s1 me op rest res).1.R r = s.R r := by
     intro r h; rw [hR r]; simp only [h, if_false]
   have hn' : (finish s1 me op rest res).1.n = s.n := hn
-  refine ⟨⟨hn, hd, fun f => ?_⟩, Or.inl ⟨?_, ⟨⟨?_, ?_, ?_, ?_, ?_⟩, ?_, ?_, ?_⟩, ?_⟩⟩
+  have hraii : ∀ r, ((finish s1 me op rest res).1.R r).raii = false := by
+    intro r
+    by_cases h : r = me
+    · subst h; rw [hme]; exact hM.core.raii r
+    · rw [hne r h]; exact hM.core.raii r
+  have hxf : ∀ r, ((finish s1 me op rest res).1.R r).xfail = false := by
+    intro r
+    by_cases h : r = me
+    · subst h; rw [hme]; exact hM.core.xf r
+    · rw [hne r h]; exact hM.core.xf r
+  have hdxf : ∀ p, p ∈ (finish s1 me op rest res).1.defs → p.1 = false := by
+    intro p hp
+    have hp' : p ∈ s1.defs := hp
+    rw [hd] at hp'
+    exact hM.core.dxf p hp'
+  have hjlt : ∀ r t, Op.join t ∈ ((finish s1 me op rest res).1.R r).script → t < r := by
+    intro r t ht
+    by_cases h : r = me
+    · subst h; rw [hme] at ht
+      exact hM.core.jlt r t (by rw [hs]; exact List.mem_cons_of_mem _ ht)
+    · rw [hne r h] at ht; exact hM.core.jlt r t ht
+  have hfd : ∀ r, ((finish s1 me op rest res).1.R r).state = .dead → ((finish s1 me op rest res).1.R r).freed = true := by
+    intro r hx
+    by_cases h : r = me
+    · subst h; rw [hme] at hx
+      rcases hM.stme with e | e <;> rw [e] at hx <;> cases hx
+    · rw [hne r h] at hx ⊢; exact hM.fd r hx
+  have hx1 : (s1.R me).xfail = false := by
+    simp only [State.R, hr]; exact hM.core.xf me
+  refine ⟨⟨hn, hd, fun f => ?_⟩, Or.inl ⟨?_, ⟨⟨?_, ?_, ?_, ?_, ?_, hraii, hrd.trans hM.core.rdefs, hxf, hdxf, hjlt⟩,
+    ?_, ?_, ?_, hfd⟩, ?_⟩⟩
   · refine total_fin (e := { r := me, op := op, res := res, canc := (s1.R me).canceled }) hn' ?_ rfl hM.lt
       (fun r h => by rw [hne r h]) hs (by rw [hme])
     simp only [finish, hl]
-  · simp only [finish, hres, false_and, if_false]
+  · simp only [finish, hx1, Bool.false_eq_true, and_false, if_false]
   · exact ha.trans hM.core.nab
   · intro r
     by_cases h : r = me
@@ -454,25 +638,24 @@ theorem fin_post {s s1 : State} {me : Nat} {op : Op} {rest : List Op} {res : Res
 
 /-- an operation other than `unlock` completes, nothing else changes -/
 theorem fin_post0 {s : State} {me : Nat} {op : Op} {rest : List Op} {res : Res}
-    (hM : Mid s me) (hs : (s.R me).script = op :: rest) (hop : ∀ m, op ≠ .unlock m)
-    (hres : res ≠ .fail) : OpPost s me rest (finish s me op rest res) := by
-  refine fin_post hM hs rfl rfl rfl rfl rfl (fun m h hx => ?_) hres
+    (hM : Mid s me) (hs : (s.R me).script = op :: rest) (hop : ∀ m, op ≠ .unlock m) :
+    OpPost s me rest (finish s me op rest res) := by
+  refine fin_post hM hs rfl rfl rfl rfl rfl rfl (fun m h hx => ?_)
   have := hM.core.hold m h hx
   refine ⟨this.1, ?_⟩
   by_cases e : h = me
   · subst e
     simp only [if_true]
     rw [hs] at this
-    rcases sections_some_cons this.2 with h | h
-    · exact h.2
-    · exact absurd h (hop m)
+    exact this.2.step (hop m)
   · simp only [e, if_false]; exact this.2
 
 /-- `me` switches back to the main context -/
 theorem blk_post {s s2 : State} {me : Nat} {op : Op} {rest : List Op}
     (hM : Mid s me) (hs : (s.R me).script = op :: rest)
     (hn : s2.n = s.n) (hd : s2.defs = s.defs) (ha : s2.aborted = s.aborted) (hl : s2.log = s.log)
-    (hmx : s2.mx = s.mx) (ho : ∀ r, r ≠ me → s2.R r = s.R r)
+    (hmx : s2.mx = s.mx) (hrd : s2.rdefs = s.rdefs) (h5 : (s2.R me).raii = false ∧ (s2.R me).xfail = false)
+    (ho : ∀ r, r ≠ me → s2.R r = s.R r)
     (h1 : (s2.R me).script = op :: rest) (h2 : (s2.R me).inOp = true) (h3 : (s2.R me).canceled = false)
     (h4 : (s2.R me).state = .ready ∨ ((s2.R me).state = .suspend ∧ blkOp op = true)) :
     OpPost s me rest (s2, .block) := by
@@ -481,7 +664,25 @@ theorem blk_post {s s2 : State} {me : Nat} {op : Op} {rest : List Op}
     by_cases h : r = me
     · subst h; rw [h1, hs]
     · rw [ho r h]
-  refine ⟨⟨hn, hd, fun f => total_congr hn hl hscr⟩, Or.inr ⟨rfl, ⟨⟨?_, ?_, ?_, ?_, ?_⟩, ?_⟩⟩⟩
+  have hraii : ∀ r, (s2.R r).raii = false := by
+    intro r
+    by_cases h : r = me
+    · subst h; exact h5.1
+    · rw [ho r h]; exact hM.core.raii r
+  have hxf : ∀ r, (s2.R r).xfail = false := by
+    intro r
+    by_cases h : r = me
+    · subst h; exact h5.2
+    · rw [ho r h]; exact hM.core.xf r
+  have hfd : ∀ r, (s2.R r).state = .dead → (s2.R r).freed = true := by
+    intro r hx
+    by_cases h : r = me
+    · subst h
+      rcases h4 with e | ⟨e, _⟩ <;> rw [e] at hx <;> cases hx
+    · rw [ho r h] at hx ⊢; exact hM.fd r hx
+  refine ⟨⟨hn, hd, fun f => total_congr hn hl hscr⟩, Or.inr ⟨rfl, ⟨⟨?_, ?_, ?_, ?_, ?_, hraii, hrd.trans hM.core.rdefs,
+    hxf, fun p hp => hM.core.dxf p (by rw [← hd]; exact hp),
+    fun r t ht => hM.core.jlt r t (by rw [← hscr]; exact ht)⟩, ?_, hfd⟩⟩⟩
   · exact ha.trans hM.core.nab
   · intro r
     by_cases h : r = me
@@ -525,7 +726,8 @@ theorem yield_post {s : State} {me : Nat} {op : Op} {rest : List Op}
     rcases hM.stme with e | e <;> rw [e] <;> exact fun x => by cases x
   have hst := makeReady_state hnd
   refine OpPost.mono w.fr ?_
-  refine blk_post (w.mid hM) ((w.scr me).trans hs) rfl rfl rfl rfl rfl (fun r h => ?_) ?_ ?_ ?_ ?_
+  refine blk_post (w.mid hM) ((w.scr me).trans hs) rfl rfl rfl rfl rfl rfl ?_ (fun r h => ?_) ?_ ?_ ?_ ?_
+  · simp only [State.setR, State.R, if_true]; exact ⟨(w.mid hM).core.raii me, (w.mid hM).core.xf me⟩
   · simp only [State.setR, State.R, h, if_false]
   · simp only [State.setR, State.R, if_true]
   · simp only [State.setR, State.R, if_true]
@@ -538,7 +740,8 @@ theorem waitBlock_post {s : State} {me : Nat} {op : Op} {rest : List Op}
   unfold waitBlock
   rw [hM.core.canc me]
   simp only [Bool.false_eq_true, if_false]
-  refine blk_post hM hs rfl rfl rfl rfl rfl (fun r h => ?_) ?_ ?_ ?_ ?_
+  refine blk_post hM hs rfl rfl rfl rfl rfl rfl ?_ (fun r h => ?_) ?_ ?_ ?_ ?_
+  · simp only [State.setR, State.R, if_true]; exact ⟨hM.core.raii me, hM.core.xf me⟩
   · simp only [State.setR, State.R, h, if_false]
   · simp only [State.setR, State.R, if_true]
   · simp only [State.setR, State.R, if_true]
@@ -552,9 +755,9 @@ theorem waitBlock_post' {s s1 : State} {me : Nat} {op : Op} {rest : List Op} (w 
   OpPost.mono w.fr (waitBlock_post (w.mid hM) ((w.scr me).trans hs) hb)
 
 theorem fin_post' {s s1 : State} {me : Nat} {op : Op} {rest : List Op} {res : Res} (w : Wk s s1)
-    (hM : Mid s me) (hs : (s.R me).script = op :: rest) (hop : ∀ m, op ≠ .unlock m)
-    (hres : res ≠ .fail) : OpPost s me rest (finish s1 me op rest res) :=
-  OpPost.mono w.fr (fin_post0 (w.mid hM) ((w.scr me).trans hs) hop hres)
+    (hM : Mid s me) (hs : (s.R me).script = op :: rest) (hop : ∀ m, op ≠ .unlock m) :
+    OpPost s me rest (finish s1 me op rest res) :=
+  OpPost.mono w.fr (fin_post0 (w.mid hM) ((w.scr me).trans hs) hop)
 
 /-! ## one operation -/
 
@@ -567,23 +770,23 @@ theorem execOp_post {s : State} {me : Nat} {op : Op} {rest : List Op}
   case yield =>
     simp only [execOp, hc, Bool.false_eq_true, if_false]
     split
-    · exact fin_post0 hM hs (fun m => by simp) (by simp)
+    · exact fin_post0 hM hs (fun m => by simp)
     · exact yield_post hM hs
   case send c v =>
     show OpPost s me rest (finish ((wake s (s.ch c).tokens (s.ch c).queue.isEmpty).1.setCh c
       { queue := (s.ch c).queue ++ [v], tokens := (wake s (s.ch c).tokens (s.ch c).queue.isEmpty).2 })
       me (.send c v) rest .ok)
-    exact fin_post' ((wake_wk _ _ _).trans (setCh_wk _ _ _)) hM hs (fun m => by simp) (by simp)
+    exact fin_post' ((wake_wk _ _ _).trans (setCh_wk _ _ _)) hM hs (fun m => by simp)
   case release k =>
     show OpPost s me rest (finish ((wake s (s.sm k).tokens (decide ((s.sm k).count = 0))).1.setSm k
       { s.sm k with count := (s.sm k).count + 1,
                     tokens := (wake s (s.sm k).tokens (decide ((s.sm k).count = 0))).2 })
       me (.release k) rest .ok)
-    exact fin_post' ((wake_wk _ _ _).trans (setSm_wk _ _ _)) hM hs (fun m => by simp) (by simp)
+    exact fin_post' ((wake_wk _ _ _).trans (setSm_wk _ _ _)) hM hs (fun m => by simp)
   case recv c =>
     simp only [execOp, hc, Bool.false_eq_true, and_false, if_false]
     split
-    · exact fin_post' (setCh_wk _ _ _) hM hs (fun m => by simp) (by simp)
+    · exact fin_post' (setCh_wk _ _ _) hM hs (fun m => by simp)
     · split
       · exact waitBlock_post' (tag_wk _ _) hM hs rfl
       · exact waitBlock_post' ((setCh_wk _ _ _).trans (tagIf_wk _ _ _)) hM hs rfl
@@ -593,35 +796,48 @@ theorem execOp_post {s : State} {me : Nat} {op : Op} {rest : List Op}
     · split
       · exact waitBlock_post' (tag_wk _ _) hM hs rfl
       · exact waitBlock_post' ((setSm_wk _ _ _).trans (tagIf_wk _ _ _)) hM hs rfl
-    · exact fin_post' (setSm_wk _ _ _) hM hs (fun m => by simp) (by simp)
+    · exact fin_post' (setSm_wk _ _ _) hM hs (fun m => by simp)
+  case join t =>
+    simp only [execOp, hc, Bool.false_eq_true, if_false]
+    split
+    · exact fin_post0 hM hs (fun m => by simp)
+    · split
+      · split
+        · exact fin_post0 hM hs (fun m => by simp)
+        · split
+          · exact fin_post0 hM hs (fun m => by simp)      -- refused: `t` has a joiner already (result `fail`)
+          · have w := setJoiner_wk s t (some me)
+            have h := waitBlock_post' w hM hs rfl
+            unfold waitBlock at h
+            rw [(w.canc me).trans hc] at h
+            simpa using h
+      · exact fin_post0 hM hs (fun m => by simp)          -- refused: `t` is freed or was never created
   case lock m =>
-    have hsec := rrole_lock hrole
+    obtain ⟨st0, hi0, hsec⟩ := rrole_lock hrole
     simp only [execOp, hc, Bool.false_eq_true, and_false, if_false]
     split
-    · refine fin_post hM hs rfl rfl rfl rfl rfl (fun m' h hx => ?_) (by simp)
+    · refine fin_post hM hs rfl rfl rfl rfl rfl rfl (fun m' h hx => ?_)
       by_cases e : m' = m
       · subst e
         simp only [State.setMx, if_true, Option.some.injEq] at hx
         subst hx
         simp only [if_true]
-        exact ⟨hM.lt, hsec⟩
+        exact ⟨hM.lt, m' :: st0, List.mem_cons_self, hi0, hsec⟩
       · simp only [State.setMx, e, if_false] at hx
         have := hM.core.hold m' h hx
         refine ⟨this.1, ?_⟩
         by_cases e' : h = me
         · subst e'
           rw [hs] at this
-          rcases sections_some_cons this.2 with h | h
-          · simp [simpleOp] at h
-          · cases h
+          simp only [if_true]
+          exact this.2.step (by simp)
         · simp only [e', if_false]; exact this.2
     · split
-      · exact fin_post0 hM hs (fun m => by simp) (by simp)
+      · exact fin_post0 hM hs (fun m => by simp)
       · split
         · exact waitBlock_post' (tag_wk _ _) hM hs rfl
         · exact waitBlock_post' ((setMx_wk s m { s.mx m with waiters := (s.mx m).waiters ++ [me] } rfl).trans (tagIf_wk _ _ _)) hM hs rfl
   case unlock m =>
-    have hsec := rrole_unlock hrole
     simp only [execOp]
     split
     · rename_i hh
@@ -630,7 +846,7 @@ theorem execOp_post {s : State} {me : Nat} {op : Op} {rest : List Op}
       have w := wake_wk s (s.mx m).waiters true
       have hM1 := w.mid hM
       have hs1 := (w.scr me).trans hs
-      refine OpPost.mono w.fr (fin_post hM1 hs1 rfl rfl rfl rfl rfl (fun m' h hx => ?_) (by simp))
+      refine OpPost.mono w.fr (fin_post hM1 hs1 rfl rfl rfl rfl rfl rfl (fun m' h hx => ?_))
       by_cases e : m' = m
       · subst e
         simp only [State.setMx, if_true] at hx
@@ -641,26 +857,26 @@ theorem execOp_post {s : State} {me : Nat} {op : Op} {rest : List Op}
         by_cases e' : h = me
         · subst e'
           rw [hs1] at this
-          rcases sections_some_cons this.2 with h | h
-          · simp [simpleOp] at h
-          · cases h; exact absurd rfl e
+          simp only [if_true]
+          exact this.2.step (by simpa using fun e'' => e e''.symm)
         · simp only [e', if_false]; exact this.2
     · rename_i hh
-      refine fin_post hM hs rfl rfl rfl rfl rfl (fun m' h hx => ?_) (by simp)
+      refine fin_post hM hs rfl rfl rfl rfl rfl rfl (fun m' h hx => ?_)
       have := hM.core.hold m' h hx
       refine ⟨this.1, ?_⟩
       by_cases e' : h = me
       · subst e'
         rw [hs] at this
-        rcases sections_some_cons this.2 with h | h
-        · simp [simpleOp] at h
-        · cases h; exact absurd hx hh
+        simp only [if_true]
+        refine this.2.step (fun e'' => ?_)
+        cases e''
+        exact hh hx
       · simp only [e', if_false]; exact this.2
 
 /-! ## a routine runs, a pass of the loop -/
 
 theorem die_bd {s : State} {me : Nat} (hM : Mid s me) (hs : (s.R me).script = []) :
-    Bd (die s me) ∧ Fr s (die s me) := by
+    BdR (die s me) me ∧ Fr s (die s me) := by
   have ho : ∀ r, r ≠ me → (die s me).R r = s.R r := by
     intro r h; simp only [die, State.setR, State.R, h, if_false]
   have hme : (die s me).R me = { s.R me with state := .dead, script := [], inOp := false } := by
@@ -670,7 +886,18 @@ theorem die_bd {s : State} {me : Nat} (hM : Mid s me) (hs : (s.R me).script = []
     by_cases h : r = me
     · subst h; rw [hme, hs]
     · rw [ho r h]
-  refine ⟨⟨⟨hM.core.nab, ?_, ?_, ?_, ?_⟩, ?_⟩, ⟨rfl, rfl, fun f => total_congr rfl rfl hscr⟩⟩
+  have hraii : ∀ r, ((die s me).R r).raii = false := by
+    intro r
+    by_cases h : r = me
+    · subst h; rw [hme]; exact hM.core.raii r
+    · rw [ho r h]; exact hM.core.raii r
+  have hxf : ∀ r, ((die s me).R r).xfail = false := by
+    intro r
+    by_cases h : r = me
+    · subst h; rw [hme]; exact hM.core.xf r
+    · rw [ho r h]; exact hM.core.xf r
+  refine ⟨⟨⟨hM.core.nab, ?_, ?_, ?_, ?_, hraii, hM.core.rdefs, hxf, hM.core.dxf,
+    fun r t ht => hM.core.jlt r t (by rw [← hscr]; exact ht)⟩, ?_, ?_⟩, ⟨rfl, rfl, fun f => total_congr rfl rfl hscr⟩⟩
   · intro r
     by_cases h : r = me
     · subst h; rw [hme]; exact hM.core.canc r
@@ -692,10 +919,15 @@ theorem die_bd {s : State} {me : Nat} (hM : Mid s me) (hs : (s.R me).script = []
     · have := hM.loc r h
       unfold Loc at *
       rw [ho r h]; exact this
+  · intro r h hx
+    rw [ho r h] at hx ⊢; exact hM.fd r hx
 
 theorem runOps_bd {me : Nat} : ∀ (ops : List Op) (s : State), Mid s me → (s.R me).script = ops →
-    Bd (runOps me ops s) ∧ Fr s (runOps me ops s)
-  | [], s, hM, hs => die_bd hM hs
+    BdR (runOps me ops s) me ∧ Fr s (runOps me ops s)
+  | [], s, hM, hs => by
+      have e : runOps me [] s = die s me := by
+        simp only [runOps, fin, unwind, hM.core.raii me, Bool.false_eq_true, if_false]
+      rw [e]; exact die_bd hM hs
   | op :: rest, s, hM, hs => by
       have hp := execOp_post hM hs
       rw [runOps]
@@ -708,15 +940,17 @@ theorem runOps_bd {me : Nat} : ∀ (ops : List Op) (s : State), Mid s me → (s.
         exact ⟨this.1, fr.trans this.2⟩
       · simp only at h1 h2
         subst h1
-        exact ⟨h2, fr⟩
+        exact ⟨h2.toR me, fr⟩
 
 theorem freeRoutine_wk {s : State} {r : Nat} (h : (s.R r).state = .dead) : Wk s (freeRoutine s r) := by
-  refine ⟨rfl, rfl, rfl, rfl, fun _ => rfl, fun i => ?_, fun i => ?_, fun i => ?_, fun i => ?_⟩
-  all_goals simp only [freeRoutine, State.setR, State.R]
+  refine ⟨rfl, rfl, rfl, rfl, fun _ => rfl, fun i => ?_, fun i => ?_, fun i => ?_, fun i => ?_, fun i => ?_, rfl,
+    fun i => ?_, fun i hf => ?_⟩
+  all_goals simp only [freeRoutine, State.setR, State.R] at *
   all_goals by_cases hi : i = r
   all_goals simp only [hi, if_true, if_false]
   · left; exact h.symm
   · left; trivial
+  · exact hf
 
 theorem switchTo_bd {s : State} {r : Nat} (hB : Bd s) (hr : r < s.n) :
     Bd (switchTo s r) ∧ Fr s (switchTo s r) := by
@@ -732,7 +966,19 @@ theorem switchTo_bd {s : State} {r : Nat} (hB : Bd s) (hr : r < s.n) :
     · subst h; rw [hme]
     · rw [ho i h]
   have hM : Mid (s.setR r { s.R r with state := .running, started := true }) r := by
-    refine ⟨⟨hB.core.nab, ?_, ?_, ?_, ?_⟩, ?_, ?_, hr⟩
+    have hxf : ∀ i, ((s.setR r { s.R r with state := .running, started := true }).R i).xfail = false := by
+      intro i
+      by_cases h : i = r
+      · subst h; rw [hme]; exact hB.core.xf i
+      · rw [ho i h]; exact hB.core.xf i
+    have hfd : ∀ i, ((s.setR r { s.R r with state := .running, started := true }).R i).state = .dead →
+        ((s.setR r { s.R r with state := .running, started := true }).R i).freed = true := by
+      intro i hx
+      by_cases h : i = r
+      · subst h; rw [hme] at hx; cases hx
+      · rw [ho i h] at hx ⊢; exact hB.fd i hx
+    refine ⟨⟨hB.core.nab, ?_, ?_, ?_, ?_, ?_, hB.core.rdefs, hxf, hB.core.dxf,
+      fun i t ht => hB.core.jlt i t (by rw [← hscr]; exact ht)⟩, ?_, ?_, hr, hfd⟩
     · intro i
       by_cases h : i = r
       · subst h; rw [hme]; exact hB.core.canc i
@@ -745,6 +991,10 @@ theorem switchTo_bd {s : State} {r : Nat} (hB : Bd s) (hr : r < s.n) :
       by_cases h : i = r
       · subst h; rw [hme] at hx; cases hx
       · rw [hscr]; rw [ho i h] at hx; exact hB.core.dead i hx
+    · intro i
+      by_cases h : i = r
+      · subst h; rw [hme]; exact hB.core.raii i
+      · rw [ho i h]; exact hB.core.raii i
     · intro i h
       have := hB.loc i
       unfold Loc at *
@@ -759,14 +1009,16 @@ theorem switchTo_bd {s : State} {r : Nat} (hB : Bd s) (hr : r < s.n) :
   · rename_i hd
     have w1 := freeRoutine_wk hd
     have w := fun o => w1.trans (resumeOpt_wk _ o)
-    exact ⟨(w _).bd h2.1, (fr0.trans h2.2).trans (w _).fr⟩
-  · exact ⟨h2.1, fr0.trans h2.2⟩
+    refine ⟨h2.1.bd_of_wk (w _) ((resumeOpt_wk _ _).frd r ?_), (fr0.trans h2.2).trans (w _).fr⟩
+    simp only [freeRoutine, State.setR, State.R, if_true]
+  · rename_i hd
+    exact ⟨h2.1.bd_of_alive hd, fr0.trans h2.2⟩
 
 theorem drain_bd : ∀ (l : List Nat) (s : State), Bd s → Bd (drain l s) ∧ Fr s (drain l s)
   | [], s, h => ⟨h, Fr.refl s⟩
   | t :: rest, s, h => by
       have w0 : Wk s { s with tmp := rest } :=
-        ⟨rfl, rfl, rfl, rfl, fun _ => rfl, fun _ => rfl, fun _ => rfl, fun _ => rfl, fun _ => Or.inl rfl⟩
+        ⟨rfl, rfl, rfl, rfl, fun _ => rfl, fun _ => rfl, fun _ => rfl, fun _ => rfl, fun _ => Or.inl rfl, fun _ => rfl, rfl, fun _ => rfl, fun _ h => h⟩
       rw [drain]
       split
       · rename_i ha
@@ -781,7 +1033,7 @@ theorem drain_bd : ∀ (l : List Nat) (s : State), Bd s → Bd (drain l s) ∧ F
 
 theorem schedule_bd {s : State} (h : Bd s) : Bd (schedule s) ∧ Fr s (schedule s) := by
   have w0 : Wk s { s with readyq := [], tmp := s.readyq } :=
-    ⟨rfl, rfl, rfl, rfl, fun _ => rfl, fun _ => rfl, fun _ => rfl, fun _ => rfl, fun _ => Or.inl rfl⟩
+    ⟨rfl, rfl, rfl, rfl, fun _ => rfl, fun _ => rfl, fun _ => rfl, fun _ => rfl, fun _ => Or.inl rfl, fun _ => rfl, rfl, fun _ => rfl, fun _ h => h⟩
   have h2 := drain_bd s.readyq _ (w0.bd h)
   exact ⟨h2.1, w0.fr.trans h2.2⟩
 
@@ -794,14 +1046,22 @@ theorem batch_bd : ∀ (k : Nat) (s : State), Bd s → Bd (batch k s) ∧ Fr s (
 
 theorem loopPass_bd {s : State} (h : Bd s) : Bd (loopPass s) ∧ Fr s (loopPass s) := by
   have w0 : Wk s { s with pend := 0 } :=
-    ⟨rfl, rfl, rfl, rfl, fun _ => rfl, fun _ => rfl, fun _ => rfl, fun _ => rfl, fun _ => Or.inl rfl⟩
+    ⟨rfl, rfl, rfl, rfl, fun _ => rfl, fun _ => rfl, fun _ => rfl, fun _ => rfl, fun _ => Or.inl rfl, fun _ => rfl, rfl, fun _ => rfl, fun _ h => h⟩
   have h2 := batch_bd s.pend _ (w0.bd h)
   exact ⟨h2.1, w0.fr.trans h2.2⟩
 
 /-! ## the main context: define / new / pass -/
 
-theorem create_bd {s : State} {d : Nat} (h : Bd s) (hrole : rrole (s.defs.getD d (false, [])).2) :
-    Bd (create s d true) ∧ (create s d true).defs = s.defs ∧
+theorem getD_xf {defs : List (Bool × List Op)} (h : ∀ p, p ∈ defs → p.1 = false) (d : Nat) :
+    (defs.getD d (false, [])).1 = false := by
+  rw [List.getD_eq_getElem?_getD]
+  cases hd : defs[d]? with
+  | none => rfl
+  | some p => exact h p (List.mem_of_getElem? hd)
+
+theorem create_bd {s : State} {d : Nat} (h : Bd s) (hrole : rrole (s.defs.getD d (false, [])).2)
+    (hj : ∀ t, Op.join t ∈ (s.defs.getD d (false, [])).2 → t < s.n) :
+    Bd (create s d true) ∧ (create s d true).defs = s.defs ∧ (create s d true).n = s.n + 1 ∧
     ∀ f, total f (create s d true) = total f s + (s.defs.getD d (false, [])).2.countP f := by
   have ho : ∀ i, i ≠ s.n → (createCore s d).R i = s.R i := by
     intro i hi; simp only [createCore, State.R, hi, if_false]
@@ -812,8 +1072,10 @@ theorem create_bd {s : State} {d : Nat} (h : Bd s) (hrole : rrole (s.defs.getD d
   have h3 : ((createCore s d).R s.n).canceled = false := by
     simp only [createCore, State.R, if_true]
   have hn : (createCore s d).n = s.n + 1 := rfl
+  have h4 : ((createCore s d).R s.n).xfail = false := by
+    simp only [createCore, State.R, if_true, getD_xf h.core.dxf d, Bool.false_and]
   have hC : Core (createCore s d) := by
-    refine ⟨h.core.nab, ?_, ?_, ?_, ?_⟩
+    refine ⟨h.core.nab, ?_, ?_, ?_, ?_, ?_, h.core.rdefs, ?_, h.core.dxf, ?_⟩
     · intro i
       by_cases hi : i = s.n
       · subst hi; exact h3
@@ -830,13 +1092,25 @@ theorem create_bd {s : State} {d : Nat} (h : Bd s) (hrole : rrole (s.defs.getD d
       by_cases hi : i = s.n
       · subst hi; rw [h2] at hx; cases hx
       · rw [ho i hi] at hx ⊢; exact h.core.dead i hx
+    · intro i
+      by_cases hi : i = s.n
+      · subst hi; simp only [createCore, State.R, if_true, h.core.rdefs, List.not_mem_nil, decide_false]
+      · rw [ho i hi]; exact h.core.raii i
+    · intro i
+      by_cases hi : i = s.n
+      · subst hi; exact h4
+      · rw [ho i hi]; exact h.core.xf i
+    · intro i t ht
+      by_cases hi : i = s.n
+      · subst hi; rw [h1] at ht; exact hj t ht
+      · rw [ho i hi] at ht; exact h.core.jlt i t ht
   have w := makeReady_wk (createCore s d) s.n
   have hst : ((makeReady (createCore s d) s.n).1.R s.n).state = .ready :=
     makeReady_state (by rw [h2]; exact fun x => (by cases x))
   have hcr : create s d true = (makeReady (createCore s d) s.n).1 := by
     simp only [create, if_true]
   rw [hcr]
-  refine ⟨⟨w.core hC, fun i => ?_⟩, w.defs, fun f => ?_⟩
+  refine ⟨⟨w.core hC, fun i => ?_, fun i => ?_⟩, w.defs, w.n.trans hn, fun f => ?_⟩
   · by_cases hi : i = s.n
     · subst hi
       unfold Loc
@@ -850,6 +1124,10 @@ theorem create_bd {s : State} {d : Nat} (h : Bd s) (hrole : rrole (s.defs.getD d
       rcases this.2 hx with h | h
       · left; omega
       · right; exact h
+  · by_cases hi : i = s.n
+    · subst hi; rw [hst]; exact fun x => (by cases x)
+    · refine w.fd ?_
+      rw [ho i hi]; exact h.fd i
   · rw [w.fr.tot f]
     unfold total
     rw [hn]
@@ -858,32 +1136,45 @@ theorem create_bd {s : State} {d : Nat} (h : Bd s) (hrole : rrole (s.defs.getD d
     show List.countP (fun e => f e.op) s.log + _ = _
     omega
 
-/-- the invariant along `run`: `P` is the list of the scripts created so far -/
+/-- the invariant along `run`: `P` is the list of the scripts created so far (so the next routine created
+has index `P.length`) -/
 def PInv (P : List (List Op)) (s : State) : Prop :=
-  Bd s ∧ ∀ f, total f s = P.flatten.countP f
+  Bd s ∧ P.length = s.n ∧ ∀ f, total f s = P.flatten.countP f
 
 theorem step_eq {s : State} {op : MainOp} (h1 : s.aborted = false) (h2 : (applyMain s op).aborted = false) :
     step s op = loopPass (applyMain s op) := by
   simp only [step, h1, h2, Bool.false_eq_true, if_false]
 
+theorem joinsLt_mem {i : Nat} {l : List Op} (h : joinsLt i l = true) {t : Nat} (ht : Op.join t ∈ l) : t < i := by
+  have := List.all_eq_true.mp h _ ht
+  simpa using this
+
 theorem run_pinv : ∀ (ops : List MainOp) (s : State) (P : List (List Op)),
-    ops.all MainOK = true → (∀ p, p ∈ createdAux s.defs ops → roleOK p = true) → PInv P s →
+    ops.all MainOK = true → (∀ p, p ∈ createdAux s.defs ops → roleOK p = true) →
+    joinsOK P.length (createdAux s.defs ops) = true → PInv P s →
     PInv (P ++ createdAux s.defs ops) (run s ops)
-  | [], s, P, _, _, h => by simpa [createdAux, run] using h
-  | op :: ops, s, P, hok, hro, h => by
+  | [], s, P, _, _, _, h => by simpa [createdAux, run] using h
+  | op :: ops, s, P, hok, hro, hjo, h => by
       simp only [List.all_cons, Bool.and_eq_true] at hok
       cases op with
       | define xf l =>
-          let s1 : State := { s with defs := s.defs ++ [(xf, l)] }
+          have hxf : xf = false := by cases xf <;> simp_all [MainOK]
+          subst hxf
+          let s1 : State := { s with defs := s.defs ++ [(false, l)] }
           have hB1 : Bd s1 :=
-            ⟨⟨h.1.core.nab, h.1.core.canc, h.1.core.role, h.1.core.hold, h.1.core.dead⟩, h.1.loc⟩
+            ⟨⟨h.1.core.nab, h.1.core.canc, h.1.core.role, h.1.core.hold, h.1.core.dead, h.1.core.raii, h.1.core.rdefs,
+              h.1.core.xf, fun p hp => by
+                rcases List.mem_append.mp hp with hp | hp
+                · exact h.1.core.dxf p hp
+                · rw [List.mem_singleton.mp hp],
+              h.1.core.jlt⟩, h.1.loc, h.1.fd⟩
           have ht1 : ∀ f, total f s1 = total f s := fun f => total_congr rfl rfl (fun _ => rfl)
           have h2 := loopPass_bd hB1
-          have hst : step s (.define xf l) = loopPass s1 := step_eq h.1.core.nab h.1.core.nab
-          have hd : (loopPass s1).defs = s.defs ++ [(xf, l)] := h2.2.defs
+          have hst : step s (.define false l) = loopPass s1 := step_eq h.1.core.nab h.1.core.nab
+          have hd : (loopPass s1).defs = s.defs ++ [(false, l)] := h2.2.defs
           rw [run, hst]
-          have := run_pinv ops (loopPass s1) P hok.2 (by rw [hd]; exact hro)
-            ⟨h2.1, fun f => by rw [h2.2.tot f, ht1 f]; exact h.2 f⟩
+          have := run_pinv ops (loopPass s1) P hok.2 (by rw [hd]; exact hro) (by rw [hd]; exact hjo)
+            ⟨h2.1, h.2.1.trans h2.2.n.symm, fun f => by rw [h2.2.tot f, ht1 f]; exact h.2.2 f⟩
           rw [hd] at this
           exact this
       | new d now =>
@@ -891,15 +1182,17 @@ theorem run_pinv : ∀ (ops : List MainOp) (s : State) (P : List (List Op)),
           subst hnow
           have hr1 : rrole (s.defs.getD d (false, [])).2 :=
             roleOK_rrole (hro _ (by simp [createdAux]))
-          have h1 := create_bd h.1 hr1
+          simp only [createdAux, joinsOK, Bool.and_eq_true] at hjo
+          have h1 := create_bd h.1 hr1 (fun t ht => by rw [← h.2.1]; exact joinsLt_mem hjo.1 ht)
           have h2 := loopPass_bd h1.1
           have hst : step s (.new d true) = loopPass (create s d true) := step_eq h.1.core.nab h1.1.core.nab
           have hd : (loopPass (create s d true)).defs = s.defs := h2.2.defs.trans h1.2.1
           rw [run, hst]
           have := run_pinv ops (loopPass (create s d true)) (P ++ [(s.defs.getD d (false, [])).2]) hok.2
             (by rw [hd]; exact fun p hp => hro p (by simp [createdAux, hp]))
-            ⟨h2.1, fun f => by
-              rw [h2.2.tot f, h1.2.2 f, h.2 f]
+            (by rw [hd]; simpa using hjo.2)
+            ⟨h2.1, by rw [h2.2.n, h1.2.2.1, ← h.2.1]; simp, fun f => by
+              rw [h2.2.tot f, h1.2.2.2 f, h.2.2 f]
               simp [List.countP_append]⟩
           rw [hd] at this
           simpa [createdAux] using this
@@ -907,20 +1200,26 @@ theorem run_pinv : ∀ (ops : List MainOp) (s : State) (P : List (List Op)),
           have h2 := loopPass_bd h.1
           have hst : step s .pass = loopPass s := step_eq h.1.core.nab h.1.core.nab
           rw [run, hst]
-          have := run_pinv ops (loopPass s) P hok.2 (by rw [h2.2.defs]; exact hro)
-            ⟨h2.1, fun f => by rw [h2.2.tot f]; exact h.2 f⟩
+          have := run_pinv ops (loopPass s) P hok.2 (by rw [h2.2.defs]; exact hro) (by rw [h2.2.defs]; exact hjo)
+            ⟨h2.1, h.2.1.trans h2.2.n.symm, fun f => by rw [h2.2.tot f]; exact h.2.2 f⟩
           rw [h2.2.defs] at this
           exact this
       | call _ => simp [MainOK] at hok
+      | defineR _ => simp [MainOK] at hok
+      | stack _ => simp [MainOK] at hok
       | resume _ => simp [MainOK] at hok
       | cancel _ => simp [MainOK] at hok
       | cleanup => simp [MainOK] at hok
 
 theorem init_pinv : PInv [] init := by
-  refine ⟨⟨⟨rfl, fun _ => rfl, fun _ => Or.inl rfl, fun m h hx => ?_, fun r hx => ?_⟩, fun r => ?_⟩, fun f => ?_⟩
+  refine ⟨⟨⟨rfl, fun _ => rfl, fun _ => Or.inl rfl, fun m h hx => ?_, fun r hx => ?_, fun _ => rfl, rfl,
+    fun _ => rfl, fun p hp => ?_, fun r t ht => ?_⟩, fun r => ?_, fun r hx => ?_⟩, rfl, fun f => ?_⟩
   · cases hx
   · cases hx
+  · cases hp
+  · cases ht
   · exact ⟨fun x => (by cases x), fun _ => Or.inl (Nat.zero_le _)⟩
+  · cases hx
   · rfl
 
 /-! ## the trace counts of Spec.lean against the operation counts -/
@@ -1016,25 +1315,29 @@ theorem quiescent_dead {s : State} {F : List Op} (hI : Inv s) (ht : s.tmp = []) 
     · exact absurd hst (hA r)
     · exact absurd hst hl.1
     · exact absurd hst hd
-  -- nobody is suspended in `lock`: the holder is inside its section, where nothing blocks
-  have hC : ∀ r m, r < s.n → ¬ susp s r (.lock m) := by
-    intro r m hr hs
-    have h1 := hI.S.mxReg r m hs
-    have h2 := hI.S.mxAvail m (fun e => by rw [e] at h1; cases h1)
-    cases hh : (s.mx m).hold with
-    | none => exact h2 hh
-    | some h =>
-        have h3 := hB.core.hold m h hh
-        have hd : (s.R h).state ≠ .dead := by
-          intro e
-          have := hB.core.dead h e
-          rw [this] at h3
-          simp [sections] at h3
-        obtain ⟨_, _, op, rest, h5, h6⟩ := hBk h h3.1 hd
-        rw [h5] at h3
-        rcases sections_some_cons h3.2 with h | h
-        · exact blk_not_simple h6 h.1
-        · subst h; simp [blkOp] at h6
+  -- nobody is suspended in `lock`, by induction along the lock order: the holder of `m` is inside the
+  -- sections of `m`, where the only blocking operation is `lock` of a strictly smaller mutex
+  have hC : ∀ m r, r < s.n → ¬ susp s r (.lock m) := by
+    intro m
+    induction m using Nat.strongRecOn with
+    | ind m ih =>
+      intro r hr hs
+      have h1 := hI.S.mxReg r m hs
+      have h2 := hI.S.mxAvail m (fun e => by rw [e] at h1; cases h1)
+      cases hh : (s.mx m).hold with
+      | none => exact h2 hh
+      | some h =>
+          have h3 := hB.core.hold m h hh
+          have hd : (s.R h).state ≠ .dead := by
+            intro e
+            have := hB.core.dead h e
+            rw [this] at h3
+            exact h3.2.ne_nil
+          obtain ⟨h4, h4', op, rest, h5, h6⟩ := hBk h h3.1 hd
+          rw [h5] at h3
+          obtain ⟨m', e, hlt⟩ := h3.2.blk h6
+          subst e
+          exact ih m' hlt h h3.1 ⟨h4, h4', by rw [h5]; rfl⟩
   -- so every remaining operation is a consumer operation
   have hD : ∀ r, r < s.n → ∀ op, op ∈ (s.R r).script → consOp op = true := by
     intro r hr op hop
@@ -1047,10 +1350,10 @@ theorem quiescent_dead {s : State} {F : List Op} (hI : Inv s) (ht : s.tmp = []) 
       · simp only [List.all_cons, Bool.and_eq_true] at h
         exact (blk_not_simple h6 h.1).elim
       · exact List.all_eq_true.mp h op hop
-      · rcases sections_cons h with ⟨h, _⟩ | ⟨m, _, h, _⟩ | ⟨m, _, h, _⟩
+      · rcases sections_cons h.2 with ⟨h, _⟩ | ⟨m, h, _⟩ | ⟨m, _, _, h, _⟩
         · exact (blk_not_simple h6 h).elim
         · subst h
-          exact absurd ⟨hs, hi, by rw [h5]; rfl⟩ (hC r m hr)
+          exact absurd ⟨hs, hi, by rw [h5]; rfl⟩ (hC m r hr)
         · subst h; simp [blkOp] at h6
   have hZ : ∀ f : Op → Bool, (∀ op, consOp op = true → f op = false) → remN f s s.n = 0 := by
     intro f hf
@@ -1059,13 +1362,26 @@ theorem quiescent_dead {s : State} {F : List Op} (hI : Inv s) (ht : s.tmp = []) 
     intro op hop
     rw [hf op (hD r hr op hop)]
     exact Bool.false_ne_true
-  intro r hr
+  -- by induction along the creation order (a routine joins only routines created before it)
+  intro r
+  induction r using Nat.strongRecOn with
+  | ind r ih =>
+  intro hr
   refine Decidable.byContradiction (fun hd => ?_)
   obtain ⟨hs, hi, op, rest, h5, h6⟩ := hBk r hr hd
   unfold balanced at hbal
   simp only [Bool.and_eq_true, List.all_eq_true, decide_eq_true_eq] at hbal
   cases op <;> simp only [blkOp, Bool.false_eq_true] at h6
-  case lock m => exact hC r m hr ⟨hs, hi, by rw [h5]; rfl⟩
+  case lock m => exact hC m r hr ⟨hs, hi, by rw [h5]; rfl⟩
+  case join t =>
+    -- the target was created earlier, so it is dead, and a dead routine is freed at a pass boundary;
+    -- but the target of a suspended joiner is still in the cabinet
+    have hsu : susp s r (.join t) := ⟨hs, hi, by rw [h5]; rfl⟩
+    have hlt : t < r := hB.core.jlt r t (by rw [h5]; exact List.mem_cons_self)
+    have hdt := ih t hlt (by omega)
+    rcases hI.S.joinReg r t hsu with ⟨_, hf, _⟩ | hc
+    · rw [hB.fd t hdt] at hf; cases hf
+    · rw [hB.core.canc r] at hc; cases hc
   case recv c =>
     have hsu : susp s r (.recv c) := ⟨hs, hi, by rw [h5]; rfl⟩
     have h1 := hI.S.chReg r c hsu
@@ -1109,11 +1425,11 @@ theorem C18_progress (ops : List MainOp) (hm : Matched ops = true) (hq : (run in
     ∀ r, r < (run init ops).n → ((run init ops).R r).state = .dead := by
   unfold Matched at hm
   simp only [Bool.and_eq_true] at hm
-  obtain ⟨⟨h1, h2⟩, h3⟩ := hm
+  obtain ⟨⟨⟨h1, h2⟩, h3⟩, h4⟩ := hm
   have hP : PInv ([] ++ created ops) (run init ops) :=
-    run_pinv ops init [] h1 (fun p hp => List.all_eq_true.mp h2 p hp) init_pinv
+    run_pinv ops init [] h1 (fun p hp => List.all_eq_true.mp h2 p hp) h4 init_pinv
   have hI := run_inv ops init_inv rfl
-  exact quiescent_dead hI.1 hI.2 hq hP.1 (fun f => by simpa using hP.2 f) h3
+  exact quiescent_dead hI.1 hI.2 hq hP.1 (fun f => by simpa using hP.2.2 f) h3
 
 /-- the restricted execution never aborts, nobody is cancelled, and every operation of every created
 script is in the trace or still in a script (conservation) -/
@@ -1122,10 +1438,10 @@ theorem C18_progress_conservation (ops : List MainOp) (hm : Matched ops = true) 
     total f (run init ops) = (created ops).flatten.countP f := by
   unfold Matched at hm
   simp only [Bool.and_eq_true] at hm
-  obtain ⟨⟨h1, h2⟩, _⟩ := hm
+  obtain ⟨⟨⟨h1, h2⟩, _⟩, h4⟩ := hm
   have hP : PInv ([] ++ created ops) (run init ops) :=
-    run_pinv ops init [] h1 (fun p hp => List.all_eq_true.mp h2 p hp) init_pinv
-  exact ⟨hP.1.core.nab, hP.1.core.canc, by simpa using hP.2 f⟩
+    run_pinv ops init [] h1 (fun p hp => List.all_eq_true.mp h2 p hp) h4 init_pinv
+  exact ⟨hP.1.core.nab, hP.1.core.canc, by simpa using hP.2.2 f⟩
 
 /-! ## non-vacuity -/
 
@@ -1172,14 +1488,97 @@ example : Matched progUnmatched = false ∧ (run init progUnmatched).readyq = []
     ((run init progUnmatched).R 1).state = .suspend ∧ 1 < (run init progUnmatched).n := by
   decide
 
+/-- nested sections under the global lock order: two routines take mutex 1, then mutex 0 inside, with
+yields (and a send) inside both sections; a third one takes 2, 1, 0 -/
+def progNestedOrdered : List MainOp :=
+  [.define false [.lock 1, .yield, .lock 0, .yield, .send 3 1, .unlock 0, .yield, .unlock 1],
+   .define false [.yield, .lock 2, .lock 1, .yield, .lock 0, .unlock 0, .unlock 1, .unlock 2, .lock 0, .unlock 0],
+   .new 0 true, .new 0 true, .new 1 true,
+   .pass, .pass, .pass, .pass, .pass, .pass, .pass, .pass, .pass, .pass, .pass, .pass]
+
+example : Matched progNestedOrdered = true ∧ (run init progNestedOrdered).readyq = [] ∧
+    (run init progNestedOrdered).n = 3 ∧
+    ((run init progNestedOrdered).R 0).state = .dead ∧ ((run init progNestedOrdered).R 1).state = .dead ∧
+    ((run init progNestedOrdered).R 2).state = .dead := by
+  decide
+
+/-- the lock order is checked: a script that takes 0 and then 1 inside, one that unlocks out of LIFO order,
+one that ends inside a section and one that locks the mutex it holds again are outside the class -/
+example : roleOK [.lock 0, .lock 1, .unlock 1, .unlock 0] = false ∧
+    roleOK [.lock 1, .lock 0, .unlock 1, .unlock 0] = false ∧
+    roleOK [.lock 1, .lock 0, .unlock 0] = false ∧
+    roleOK [.lock 1, .lock 1, .unlock 1, .unlock 1] = false ∧
+    roleOK [.lock 1, .lock 0, .yield, .unlock 0, .send 0 0, .unlock 1, .lock 5, .unlock 5] = true := by
+  decide
+
 /-- … and so is the role hypothesis: nested sections in opposite order deadlock -/
 def progNested : List MainOp :=
   [.define false [.lock 0, .yield, .yield, .lock 1, .unlock 1, .unlock 0],
    .define false [.lock 1, .yield, .yield, .lock 0, .unlock 0, .unlock 1], .new 0 true, .new 1 true,
    .pass, .pass, .pass]
 
-example : Matched progNested = false ∧ (run init progNested).readyq = [] ∧
-    ((run init progNested).R 0).state = .suspend ∧ ((run init progNested).R 1).state = .suspend := by
+/-- the global lock order is needed: the classic two-lock program (0 then 1 against 1 then 0) is outside the
+class, its ready queue drains, and both routines stay suspended in `lock` (of the mutex the other one holds)
+for ever: further passes change nothing -/
+theorem C18_progress_unordered_locks_counterexample :
+    Matched progNested = false ∧ (run init progNested).readyq = [] ∧ (run init progNested).n = 2 ∧
+    susp (run init progNested) 0 (.lock 1) ∧ susp (run init progNested) 1 (.lock 0) ∧
+    ((run init progNested).mx 0).hold = some 0 ∧ ((run init progNested).mx 1).hold = some 1 ∧
+    (run init (progNested ++ [.pass, .pass, .pass])).readyq = [] ∧
+    susp (run init (progNested ++ [.pass, .pass, .pass])) 0 (.lock 1) ∧
+    susp (run init (progNested ++ [.pass, .pass, .pass])) 1 (.lock 0) := by
+  decide
+
+/-- a join chain: routine 0 is a producer, routine 1 joins 0 and then receives what 0 sent, routine 2 joins 1;
+after the third `new` both joiners are suspended (2 waits for 1, which waits for 0) -/
+def progJoinChain : List MainOp :=
+  [.define false [.yield, .yield, .yield, .yield, .yield, .yield, .send 0 4, .yield],
+   .define false [.join 0, .recv 0], .define false [.join 1, .yield],
+   .new 0 true, .new 1 true, .new 2 true, .pass, .pass, .pass, .pass, .pass, .pass]
+
+example : Matched progJoinChain = true ∧
+    susp (run init (progJoinChain.take 6)) 1 (.join 0) ∧ susp (run init (progJoinChain.take 6)) 2 (.join 1) ∧
+    (run init progJoinChain).readyq = [] ∧ (run init progJoinChain).n = 3 ∧
+    ((run init progJoinChain).R 0).state = .dead ∧ ((run init progJoinChain).R 1).state = .dead ∧
+    ((run init progJoinChain).R 2).state = .dead ∧
+    ((run init progJoinChain).log.filter (fun e => e.r != 0)).map (fun e => (e.r, e.op, e.res)) =
+      [(1, .join 0, .ok), (1, .recv 0, .val 4), (2, .join 1, .ok), (2, .yield, .ok)] := by
+  decide
+
+/-- refused joins are in the class: routines 1 and 2 both join 0 (the second joiner gets `fail` and runs on),
+routine 3 joins 0 after it has returned (`fail`: the token is gone) -/
+def progJoinRefused : List MainOp :=
+  [.define false [.yield, .yield, .yield], .define false [.join 0, .yield], .define false [.yield, .yield, .yield, .yield, .join 0],
+   .new 0 true, .new 1 true, .new 1 true, .new 2 true, .pass, .pass, .pass, .pass, .pass, .pass]
+
+example : Matched progJoinRefused = true ∧ (run init progJoinRefused).readyq = [] ∧ (run init progJoinRefused).n = 4 ∧
+    (∀ r, r < 4 → ((run init progJoinRefused).R r).state = .dead) ∧
+    ((run init progJoinRefused).log.filter (fun e => e.op == .join 0)).map (fun e => (e.r, e.res)) =
+      [(2, .fail), (1, .ok), (3, .fail)] := by
+  decide
+
+/-- two consumers that join each other -/
+def progJoinCycle : List MainOp :=
+  [.define false [.yield, .join 1], .define false [.join 0], .new 0 true, .new 1 true, .pass, .pass]
+
+/-- the creation-order condition on `join` is needed: two routines joining each other (0 joins 1, 1 joins 0)
+are outside the class - only because of that condition: roles and balance are fine -, the ready queue
+drains, and both stay suspended in `join` for ever: further passes change nothing -/
+theorem C18_progress_join_cycle_counterexample :
+    Matched progJoinCycle = false ∧ progJoinCycle.all MainOK = true ∧ (created progJoinCycle).all roleOK = true ∧
+    balanced (created progJoinCycle).flatten = true ∧ joinsOK 0 (created progJoinCycle) = false ∧
+    (run init progJoinCycle).readyq = [] ∧ (run init progJoinCycle).n = 2 ∧
+    susp (run init progJoinCycle) 0 (.join 1) ∧ susp (run init progJoinCycle) 1 (.join 0) ∧
+    ((run init progJoinCycle).R 1).joiner = some 0 ∧ ((run init progJoinCycle).R 0).joiner = some 1 ∧
+    (run init (progJoinCycle ++ [.pass, .pass, .pass])).readyq = [] ∧
+    susp (run init (progJoinCycle ++ [.pass, .pass, .pass])) 0 (.join 1) ∧
+    susp (run init (progJoinCycle ++ [.pass, .pass, .pass])) 1 (.join 0) := by
+  decide
+
+/-- the index in the `join` condition is the creation index, not the definition index -/
+example : Matched [.define false [.join 0], .define false [.yield], .new 1 true, .new 0 true, .pass] = true ∧
+    Matched [.define false [.join 0], .define false [.yield], .new 0 true, .new 1 true, .pass] = false ∧
+    Matched [.define false [.yield, .join 0], .new 0 true, .pass] = false := by
   decide
 
 end Tbox.C18
